@@ -16,8 +16,15 @@ func c07Scenarios(tier string) []*Scenario {
 		bound = 4
 	}
 	var out []*Scenario
+	var extra func(env *Env) string // additional oracle for the scenarios added while it is set
 	add := func(name string, stack []Spec, script []Out) {
+		ex := extra
 		check := func(env *Env) string {
+			if ex != nil {
+				if msg := ex(env); msg != "" {
+					return msg
+				}
+			}
 			_, byLayer := env.Apps()
 			for i, s := range env.Stack {
 				if s.Kind == KTimeout {
@@ -75,6 +82,37 @@ func c07Scenarios(tier string) []*Scenario {
 	add("timeout(hedge)", []Spec{T, H}, []Out{{V: 1, Dur: L, Coop: true}, {V: 2, Block: true}})
 	add("hedge(timeout)", []Spec{H, T}, []Out{{V: 1, Block: true}, {V: 2, Dur: 30}})
 	add("hedge(timeout)", []Spec{H, T}, []Out{{V: 1, Block: true}, {V: 2, Dur: L}})
+	// Hedge(Retry(Timeout)) and Hedge(Fallback(Timeout)): a Timeout exceeded inside a hedged attempt cancels what is
+	// inside that Timeout only; the retry around it tries again under a fresh limit, the fallback is applied
+	{
+		want := func(v int, invs int, timeouts int) func(env *Env) string {
+			return func(env *Env) string {
+				if env.ResV != v || env.ResE != nil {
+					return fmt.Sprintf("caller got (%d,%v), want (%d,nil)", env.ResV, env.ResE, v)
+				}
+				if len(env.Invs) != invs {
+					return fmt.Sprintf("%d invocations, want %d", len(env.Invs), invs)
+				}
+				n := 0
+				for _, e := range env.Events {
+					if e.Name == "timeout" {
+						n++
+					}
+				}
+				if n != timeouts {
+					return fmt.Sprintf("OnTimeoutExceeded fired %d times, want %d", n, timeouts)
+				}
+				return ""
+			}
+		}
+		HR := Spec{Kind: KHedge, MaxHedges: 1, HDelay: 10}
+		R1 := Spec{Kind: KRetry, MaxRetries: 3} // (the budget is shared by the attempts of one execution)
+		extra = want(2, 4, 2)
+		add("hedge(retry(timeout))", []Spec{HR, R1, T}, []Out{{V: 1, Block: true}, {V: 1, Block: true}, {V: 1, Dur: 3 * L, Coop: true}, {V: 2, Dur: 5}})
+		extra = want(9, 2, 2)
+		add("hedge(fallback(timeout))", []Spec{{Kind: KHedge, MaxHedges: 1, HDelay: 10, Cancel: []Cond{{K: "result", V: 77}}}, F, T}, []Out{{V: 1, Block: true}, {V: 1, Block: true}})
+		extra = nil
+	}
 	// bulkhead / rate limiter inside and outside
 	for _, w := range []time.Duration{L - 1, L, L + 50} {
 		add("timeout(bulkhead-full)", []Spec{T, {Kind: KBulkhead, Conc: 1, BWait: w, Held: 1}}, []Out{{V: 1}})
